@@ -97,6 +97,7 @@ func c02QuoTopPrecision(c *hx.Ctx, r *hx.RNG) {
 func c02Case(c *hx.Ctx, r *hx.RNG, idx int64) {
 	if idx%4000000 == 31 {
 		c02QuoTopPrecision(c, r)
+		releaseHuge()
 		return
 	}
 	l := hx.LimitsFor(c.Tier)
